@@ -8,15 +8,15 @@ RULE = ("argument sequences (1-8) of key=value / bare key / key= / =value / malf
         "and indices over an overlapping address space; values in every syntax parse.Value accepts (numbers, bools, quoted strings, "
         "lists, objects, top-level comma lists); option sets with and without PathSep and each merge policy; autoBool on/off. Oracle: "
         "Config() = fold of Merge over the arguments' configs with the flag's options up to the first failing argument, Error() set "
-        "exactly when one failed, the collector keeps the options. Non-trivial: two arguments address overlapping settings or one is "
+        "exactly when one failed, and Error() read after every Set never changes once it is non-nil; the collector keeps the options. Non-trivial: two arguments address overlapping settings or one is "
         "malformed. Distinct by (policy, PathSep, multiset of argument kinds, error position).")
 TRUSTED_BASE = ["Lean 4 kernel", "Model/Flag.lean transcribes flag/util.go, flag/value.go, cfgutil.go; Parse/Normalize/Merge models", "correspondence harness"]
 ASSUMPTIONS = ["file flags (NewFlagFiles) share the collector and are covered through it, their loaders are the C18 front-ends"]
 
 KEYS2 = ["a", "b", "a.b", "a.c", "l.0", "l.1", "l.0.x", "a.b.c", "m"]
 VALS = ["1", "-2", "0x10", "1.5", "true", "off", "null", "str", "'q s'", '"d\\"q"', "[1,2]", "[a, b, c]", "{x: 1}", "{x: {y: 2}}", "a,b", "1,2,3",
-        "[]", "{}", " spaced ", "${x}", "$"]
-BAD = ["[1,", "{a:1", '"unterminated', "{a}", "[1 2]", "'x"]
+        "[]", "{}", " spaced ", "${x}", "$", "x=y", "=", "a=b=c", "'k=v'", "{x: 'p=q'}", "[a=1, b=2]"]
+BAD = ["[1,", "{a:1", '"unterminated', "{a}", "[1 2]", "'x", "{a=1", "[=,"]
 
 
 def gen(rng, tier):
@@ -46,11 +46,39 @@ def gen(rng, tier):
                 args.append(key + "=" + rng.pick(BAD)); kinds.add("bad")
             else:
                 args.append(""); kinds.add("blank")
+        if rng.chance(0.15):
+            # two failing arguments with different messages: the first one has to stay
+            for _ in range(2):
+                args.insert(rng.below(len(args) + 1), rng.pick(KEYS2) + "=" + rng.pick(BAD)); kinds.add("bad")
         ab = rng.chance(0.8)
         keys = [a.split("=")[0] for a in args]
         nt = len(set(keys)) < len(keys) or "bad" in kinds or any(k1 != k2 and (k1.startswith(k2 + ".") or k2.startswith(k1 + ".")) for k1 in keys for k2 in keys)
         yield {"k": "flags", "args": args, "opts": opts, "autoBool": ab, "_tag": "flags/" + (pol or "default"),
                "_sig": "%s|%s|%s|%s" % (pol, sep, ab, "+".join(sorted(kinds))), "_nt": nt}
+
+
+def normalize_result(case, res):
+    if isinstance(res, dict):
+        return {k: v for k, v in res.items() if k not in ("setErr", "errText")}
+    return res
+
+
+def oracle(case, impl, model):
+    """error stickiness on the texts Error() returned after every Set (the model compares positions and reasons)"""
+    if not isinstance(impl, dict) or "setErr" not in impl:
+        return None
+    se = impl["setErr"]
+    first = next((i for i, e in enumerate(se) if e is not None), None)
+    if first is None:
+        if impl.get("errText") is not None:
+            return (False, "Error() is set although it was nil after every Set")
+        return None
+    for j in range(first + 1, len(se)):
+        if se[j] != se[first]:
+            return (False, "Error() was %r after argument %d and %r after argument %d: the first error did not stay" % (se[first], first, se[j], j))
+    if impl.get("errText") != se[first]:
+        return (False, "Error() reports %r, after the first failing argument it reported %r" % (impl.get("errText"), se[first]))
+    return None
 
 
 def nontrivial(case, impl):
